@@ -37,6 +37,23 @@ TOL_ENT_SHOOT = 5e-5     # entropy mismatch of the Tn-shooting matching at the r
 WORST = {}
 
 
+# Inputs on which the UNCHANGED code violates the property (registered in
+# known_findings.json under input-naming keys).  They are replayed first in both tiers so
+# that the KNOWN-FINDING lines are deterministic; every other input keeps its own key.
+KNOWN_INPUTS = [
+    (dict(kind="bag", psi=0.655, Tn=0.561), 1e-6, 1e-10),
+    (dict(kind="bag", psi=0.548, Tn=0.598), 1e-6, 1e-10),
+    (dict(kind="bag", psi=0.169, Tn=0.774), 1e-6, 1e-10),
+    (dict(kind="bag", psi=0.242, Tn=0.686), 1e-6, 1e-10),
+    (dict(kind="bag", psi=0.722, Tn=0.523), 1e-6, 1e-10),
+    (dict(kind="bag", psi=0.429, Tn=0.7), 1e-6, 1e-10),
+    (dict(kind="template", psiN=0.5348, alN=1.07426, cs2=0.271, cb2=0.2613, Tn=1.0),
+     1e-6, 1e-10),
+    (dict(kind="bag", psi=0.6, Tn=0.6), 1e-6, 1e-6),
+    (dict(kind="bag", psi=0.4, Tn=0.7), 1e-6, 1e-6),
+]
+
+
 def gam(v):
     return 1.0 / math.sqrt(1.0 - v * v)
 
@@ -478,9 +495,18 @@ def scan(ctx, hy, n):
     return out
 
 
+def spec_id(spec):
+    return ",".join("%s=%s" % (k, spec[k]) for k in sorted(spec) if k != "kind")
+
+
 def check_lte(ctx, spec, rtol=1e-6, atol=1e-10, gated=True):
-    """returns a list of failures (what, replay, key); reported by the caller"""
+    """returns a list of failures (what, replay, key); reported by the caller.  Keys of
+    sentinel / exception failures name the input: a registered finding for one equation of
+    state must not hide the same symptom on another one."""
     fails = []
+    sid = "%s:%s" % (spec["kind"], spec_id(spec))
+    if (rtol, atol) != (1e-6, 1e-10):
+        sid += ":rtol=%g,atol=%g" % (rtol, atol)
     try:
         th, hy = S.make_hydro(spec, rtol, atol)
     except Exception as ex:
@@ -494,8 +520,8 @@ def check_lte(ctx, spec, rtol=1e-6, atol=1e-10, gated=True):
     try:
         res, events = record_findvwLTE(hy)
     except Exception as ex:
-        fails.append(("findvwLTE raised %r; %s" % (ex, spec), dict(kind="raise", **case),
-                      "raises:" + spec["kind"]))
+        fails.append(("findvwLTE raised %s; %s" % (repr(ex)[:160], spec),
+                      dict(kind="raise", **case), "raises:" + sid))
         return fails, None
     term, why = model_case(th, hy, res, events)
     nscan = ctx.n(64, 512)
@@ -567,7 +593,7 @@ def check_lte(ctx, spec, rtol=1e-6, atol=1e-10, gated=True):
                     "the window: T+g+/(T-g-)-1 = %+.3e at vw=%.6f (%d of %d scanned velocities "
                     "negative; %+.3e at vw=%.4f); %s" % (e, v, len(neg), len(vals), vals[0][1],
                                                          vals[0][0], spec),
-                    dict(kind="runaway", vw=v, **case), "runaway-sign:" + spec["kind"]))
+                    dict(kind="runaway", vw=v, **case), "runaway-sign:" + sid))
     elif res == 0:
         lo = S.window_lo(hy)
         E = mismatch(hy, lo)
@@ -584,7 +610,7 @@ def check_lte(ctx, spec, rtol=1e-6, atol=1e-10, gated=True):
                     "the smallest allowed velocity vw=%.6f (scan: %s); %s" % (
                         E, lo, " ".join("%+.0e" % e if e is not None else "n/a"
                                         for _v, e in sc), spec),
-                    dict(kind="static", vw=lo, **case), "static-sign:" + spec["kind"]))
+                    dict(kind="static", vw=lo, **case), "static-sign:" + sid))
     else:
         fails.append(("findvwLTE returned %r; %s" % (res, spec), dict(kind="value", **case),
                       "lte-value"))
@@ -595,6 +621,18 @@ def direct(ctx, proved):
     WORST.clear()
     sp = specs(ctx)
     terms, meta = [], []
+    for spec, rtol, atol in KNOWN_INPUTS:
+        try:
+            fails, _mc = check_lte(ctx, spec, rtol, atol)
+        except Exception as ex:
+            ctx.fail_input("harness/implementation raised %r for %s" % (ex, spec),
+                           dict(kind="raise", spec=spec, rtol=rtol, atol=atol),
+                           key="raises:%s:%s" % (spec["kind"], spec_id(spec)))
+            continue
+        ctx.count("known_input_replayed", dict(spec=spec, rtol=rtol, atol=atol),
+                  bucket="still failing" if fails else "passes now")
+        for what, rep, key in fails:
+            ctx.fail_input(what, rep, key=key)
     for n, spec in enumerate(sp):
         try:
             fails, mc = check_lte(ctx, spec)
